@@ -10,6 +10,7 @@ from ..extract import e2
 
 PERMIT_EXEC = ("EXECUTE", "PERMIT")      # "executor permits"
 TTL = 300_000_000
+VERDICT_FIELDS = ("action", "success", "blocked", "token", "hash_ok", "issuer_ok")
 
 
 def criterion(gate: str, z: str, y: str) -> bool:
@@ -72,7 +73,7 @@ class C07(Prop):
                 v = VERDICTS + ["exc", "weird"]
                 lines = [cfg_line(rng.choice(GATES), False, 5, 60_000_000, True, TTL)]
                 for _ in range(rng.choice([1, 2, 3])):
-                    lines.append(self._reenter_line(rng.choice(GATES), rng.random() < 0.7, rng.choice("ea"), rng.choice([1, 1, 2, 3]),
+                    lines.append(self._reenter_line(rng.choice(GATES), rng.random() < 0.7, rng.choice("eaeaEA"), rng.choice([1, 1, 2, 3]),
                                                     rng.randrange(20, 40), rng.choice(v), rng.choice(v),
                                                     rng.randrange(40, 60), rng.choice(v), rng.choice(v)))
                 yield {"lines": lines, "note": "re-entrant agents (search only)"}
@@ -157,13 +158,14 @@ class C07(Prop):
                                "distinct prompts and a repeat", "cases": drained})
         nest = []
         for g in GATES:
-            for where in "ea":
+            for where in "eaEA":
                 for za, ya in itertools.product(VERDICTS + ["exc"], repeat=2):
                     nest.append({"lines": [self._reenter_line(g, True, where, 1, 31, za, ya, 32, zb, yb)
                                            for (zb, yb) in (("EXECUTE", "PERMIT"), ("BLOCK", "BLOCK"), ("FAILURE", "DEFER"))],
                                  "note": "re-entrant agents (search only)"})
         spaces.append({"name": "search only (outside the model): request A (6 gate logics x 7 x 7 verdicts) during which the "
-                               "executor / assessor stub issues a nested request B (3 verdict pairs) on the same loop",
+                               "executor / assessor stub issues a nested request B (3 verdict pairs) on the same loop - re-entrant, or "
+                               "from a second thread while the agent waits - and then every prompt is asked again twice",
                        "cases": nest})
         if tier == "thorough":
             more = []
@@ -245,18 +247,50 @@ class C07(Prop):
             if isinstance(rep, str):
                 out.append(Violation("reentrant_run_returns_a_result", "a LoopResult", tag, idx))
                 continue
-            if rep["cached"] or rep["action"] == "CIRCUIT_OPEN":
-                continue
-            if not rep["blocked"] and not criterion(info["gate"], r["z"], r["y"]):
-                out.append(Violation("unblocked_only_if_own_verdicts_satisfy_gate",
-                                     f"blocked under {info['gate']}", tag, idx))
-            if rep["token"]:
-                if r["y"] != "PERMIT":
-                    out.append(Violation("token_only_if_own_assessor_permitted", "no token", tag, idx))
-                if not rep["hash_ok"]:
-                    out.append(Violation("token_bound_to_this_request", "sha256 of this prompt", tag, idx))
-                if not rep["issuer_ok"]:
-                    out.append(Violation("token_names_assessor", "issuer=assessor", tag, idx))
+            self._judge_own(info, r, rep, tag, idx, out)
+            # the prompt asked again after the overlap: "cached replies are identical in verdict to the original" - the
+            # original of a cached reply is the reply THIS prompt got (its latest one that was not served from the cache)
+            orig = rep if not rep["cached"] else None
+            for n, rr in enumerate(r.get("repeats", ())):
+                rtag = f"repeat {n} of request {k} (prompt {r['p']}, executor={r['z']}, assessor={r['y']}) -> {rr}; original {orig}"
+                if isinstance(rr, str):
+                    out.append(Violation("reentrant_run_returns_a_result", "a LoopResult", rtag, idx))
+                    continue
+                if rr["action"] == "CIRCUIT_OPEN":
+                    if not rr["blocked"]:
+                        out.append(Violation("circuit_open_is_blocked", "blocked", rtag, idx))
+                    continue
+                if rr["cached"]:
+                    if not info.get("cache", True):
+                        out.append(Violation("cached_reply_without_cache", "cached=0", rtag, idx))
+                    if orig is None:
+                        out.append(Violation("cached_reply_has_original", "an earlier non-cached reply for this prompt",
+                                             rtag, idx))
+                    elif any(rr[f] != orig[f] for f in VERDICT_FIELDS):
+                        out.append(Violation("cached_verdict_identical_after_overlap",
+                                             str({f: orig[f] for f in VERDICT_FIELDS}), rtag, idx))
+                    if rr["token"] and not rr["hash_ok"]:
+                        out.append(Violation("token_bound_to_this_request", "sha256 of this prompt", rtag, idx))
+                    if rr["token"] and not rr["issuer_ok"]:
+                        out.append(Violation("token_names_assessor", "issuer=assessor", rtag, idx))
+                else:
+                    orig = rr
+                    self._judge_own(info, r, rr, rtag, idx, out)
+
+    def _judge_own(self, info, r, rep, tag, idx, out):
+        """a reply the agents were consulted for, judged by the verdicts they returned on THIS request"""
+        if rep["cached"] or rep["action"] == "CIRCUIT_OPEN":
+            return
+        if not rep["blocked"] and not criterion(info["gate"], r["z"], r["y"]):
+            out.append(Violation("unblocked_only_if_own_verdicts_satisfy_gate",
+                                 f"blocked under {info['gate']}", tag, idx))
+        if rep["token"]:
+            if r["y"] != "PERMIT":
+                out.append(Violation("token_only_if_own_assessor_permitted", "no token", tag, idx))
+            if not rep["hash_ok"]:
+                out.append(Violation("token_bound_to_this_request", "sha256 of this prompt", tag, idx))
+            if not rep["issuer_ok"]:
+                out.append(Violation("token_names_assessor", "issuer=assessor", tag, idx))
 
     def _reenter_line(self, gate, cache, where, depth, pa, za, ya, pb, zb, yb):
         return f"reenter {gate} {1 if cache else 0} {where} {depth} {pa} {za} {ya} {pb} {zb} {yb}"
